@@ -3,8 +3,8 @@ import itertools
 
 from props.graph import FAULT_KINDS, GraphProp
 
-KINDS = ["SimFault", "RuntimeError", "MemoryError", "KeyboardInterrupt", "SimBaseFault", "KeyError", "StopIteration", "ExoticRuntimeError"]
-MORE_KINDS = ["ValueError", "SystemExit", "IndexError", "AttributeError", "TypeError", "ZeroDivisionError", "AssertionError", "OSError",
+KINDS = ["SimFault", "RuntimeError", "MemoryError", "KeyboardInterrupt", "SimBaseFault", "KeyError", "StopIteration", "ExoticRuntimeError", "TypeError"]
+MORE_KINDS = ["ValueError", "SystemExit", "IndexError", "AttributeError", "ZeroDivisionError", "AssertionError", "OSError",
               "LookupError", "NotImplementedError", "RecursionError", "GeneratorExit", "ExoticError"]
 
 
@@ -18,7 +18,7 @@ class Prop(GraphProp):
              "thorough": {"runs": 400000, "budget_s": 900, "chunk": 16}}
     rule = ("(a) exhaustive part: for a fixed family of small worlds x schedules, every callback invocation (Hamiltonian "
             "term, Sylvester solver, multiplication) of every operation x {SimFault(Exception), RuntimeError, MemoryError, "
-            "KeyboardInterrupt, SimBaseFault(BaseException), KeyError, StopIteration, ExoticRuntimeError (a RuntimeError subclass with a three-argument constructor)} is injected as a single fault, the schedule continues and finally every element is "
+            "KeyboardInterrupt, SimBaseFault(BaseException), KeyError, StopIteration, ExoticRuntimeError (a RuntimeError subclass with a three-argument constructor), TypeError} is injected as a single fault, the schedule continues and finally every element is "
             "re-requested; (b) seeded part: random worlds and schedules with 1-4 faults, transient or sticky (the same site "
             "fails again on retry), placed only where the clean run of the same schedule shows a callback invocation, incl. "
             "faults during block_diagonalize(...) itself, in a second computation sharing the input, in chained "
@@ -28,14 +28,14 @@ class Prop(GraphProp):
             "elements were in flight (nesting depth >= 2) and at least 3 value-returning requests followed; distinct = "
             "distinct sha256 of the event log")
     probes = ["fmt_implicit", "kpm_world", "fault_SimBaseFault", "fault_SystemExit", "fault_SimFault", "fault_RuntimeError", "fault_MemoryError", "fault_KeyboardInterrupt", "fault_site_H",
-              "fault_site_S", "fault_site_M", "fault_site_Hc", "fault_sticky_rehit", "fault_depth_ge2", "fault_in_build",
+              "fault_site_S", "fault_site_M", "fault_site_Hc", "fault_site_Mw", "fault_sticky_rehit", "fault_depth_ge2", "fault_in_build",
               "recompute_after_eviction", "op_raised_by_fault", "final_checked", "multi_comp_world", "chain_world",
               "fault_in_array_op", "fault_in_view_op"]
     assumptions = ["faults are raised only from simulator-owned callbacks (the property speaks of user-supplied callbacks); "
                    "asynchronous interrupts between arbitrary bytecodes are outside the stated property",
                    "oracle: a fresh undisturbed computation of the same world in the same process"]
     fixed_description = ("single-fault enumeration: every callback invocation index of every operation of the fixed "
-                         "(world, schedule) family x 8 exception kinds; thorough tier additionally all pairs of faults in "
+                         "(world, schedule) family x 9 exception kinds; thorough tier additionally all pairs of faults in "
                          "different operations for four of the worlds")
 
     profile = {"p_illposed": 0.0, "max_ops": 30}
@@ -109,6 +109,8 @@ class Prop(GraphProp):
             {**base, "herm": True, "domain": "sym", "sizes": [1, 2], "npert": 1, "terms": [[1]], "real": True,
              "comps": [{**comp, "fd": [1]}]},
             {**base, "herm": True, "sizes": [1, 3], "npert": 1, "terms": [[1]], "fmt": "implicit", "cap": 2, "comps": [{**comp, "kpm": False}]},
+            {**base, "herm": True, "domain": "wrapped", "fmt": "scalar_vecs", "sizes": [1, 2], "npert": 1, "terms": [[1]], "cap": 2,
+             "comps": [{**comp, "solver": "custom"}]},
         ]
         if tier == "thorough":
             fam += [
